@@ -47,6 +47,8 @@ enum PStatus {
 #[derive(Clone, Debug, PartialEq)]
 enum CStatus {
     Ready,
+    /// inside a poll (or the drop), about to take the lock again after having released it
+    MidPoll,
     Parked(u64),
     Done,
 }
@@ -75,6 +77,8 @@ thread_local! {
     static ROLE: Cell<u8> = const { Cell::new(0) }; // 0 none, 1 P, 2 C
     static CUR_OP: Cell<usize> = const { Cell::new(0) };
     static LOCKS: Cell<u32> = const { Cell::new(0) };
+    static C_LOCKS: Cell<u32> = const { Cell::new(0) };
+    static C_WID: Cell<u64> = const { Cell::new(0) };
 }
 
 impl Sched {
@@ -170,6 +174,22 @@ pub fn run_one(case: &SchedCase, prefix: &[u8]) -> RunResult {
                 }
                 _ => {}
             }
+        } else if role == 2 {
+            // the consumer: a poll of the unchanged code is one critical section, so there is no
+            // yield inside it; if a poll takes the lock a second time, the producer may run in between
+            match e {
+                http_serve::verif_hooks::Event::BeforeLock => {
+                    if C_LOCKS.with(|l| l.get()) > 0 {
+                        let wid = C_WID.with(|w| w.get());
+                        s2.yield_back(Who::C, |st| {
+                            st.c = CStatus::MidPoll;
+                            st.trace.push(Val::L(vec![Val::N(5), Val::N(wid)]));
+                        });
+                    }
+                }
+                http_serve::verif_hooks::Event::AfterLock => C_LOCKS.with(|l| l.set(l.get() + 1)),
+                _ => {}
+            }
         }
     })));
 
@@ -244,6 +264,8 @@ pub fn run_one(case: &SchedCase, prefix: &[u8]) -> RunResult {
             }
             if let Some(n) = drop_after {
                 if npolls >= n {
+                    C_LOCKS.with(|l| l.set(0));
+                    C_WID.with(|w| w.set(0));
                     body = None;
                     sc.yield_back(Who::C, |st| {
                         st.trace.push(Val::L(vec![Val::N(4)]));
@@ -261,6 +283,8 @@ pub fn run_one(case: &SchedCase, prefix: &[u8]) -> RunResult {
                 g.woken.retain(|w| *w != wid);
             }
             let mut cx = Context::from_waker(&waker);
+            C_LOCKS.with(|l| l.set(0));
+            C_WID.with(|w| w.set(wid));
             let r = body.as_mut().unwrap().as_mut().poll_frame(&mut cx);
             npolls += 1;
             let (rv, next) = match r {
@@ -278,6 +302,7 @@ pub fn run_one(case: &SchedCase, prefix: &[u8]) -> RunResult {
                 break;
             }
         }
+        ROLE.with(|r| r.set(0));
         let mut g = sc.st.lock().unwrap();
         if let (CStatus::Parked(_), Some(b)) = (&g.c, body.as_ref()) {
             // asleep at the end of a maximal schedule: is anything queued for it?
@@ -315,7 +340,7 @@ pub fn run_one(case: &SchedCase, prefix: &[u8]) -> RunResult {
             PStatus::Finished => false,
         };
         let c_en = match &g.c {
-            CStatus::Ready => true,
+            CStatus::Ready | CStatus::MidPoll => true,
             CStatus::Parked(w) => g.woken.contains(w) || g.spurious_left > 0,
             CStatus::Done => false,
         };
